@@ -180,6 +180,34 @@ impl HookMonitor {
 }
 
 /// Seeded history over the corpus: small working set, heavy repetition, aliases first or target first.
+static TWIN_TABLE: std::sync::OnceLock<Vec<Vec<usize>>> = std::sync::OnceLock::new();
+
+/// entries (other than `i`) with a different identity but an identical definition when registered alone
+fn twins_of(i: usize) -> Option<&'static Vec<usize>> {
+    TWIN_TABLE.get().and_then(|t| t.get(i)).filter(|v| !v.is_empty())
+}
+
+pub fn init_twins(es: &[Entry]) {
+    TWIN_TABLE.get_or_init(|| {
+        let mut key: Vec<(u64, TypeId)> = Vec::new();
+        for e in es {
+            let mut r = Registry::new();
+            let id = r.register_type(&(e.meta)()).id;
+            let reg: PortableRegistry = r.into();
+            let mut t = reg.resolve(id).cloned().unwrap();
+            for x in reggen::refs_mut(&mut t) {
+                *x = 0;
+            }
+            key.push((type_hash(&t), (e.did)()));
+        }
+        let mut by: HashMap<u64, Vec<usize>> = HashMap::new();
+        for (i, (h, _)) in key.iter().enumerate() {
+            by.entry(*h).or_default().push(i);
+        }
+        (0..es.len()).map(|i| by[&key[i].0].iter().copied().filter(|j| key[*j].1 != key[i].1).take(8).collect()).collect()
+    });
+}
+
 /// entries that differ only in their outermost constructor (`Range<u8>` / `RangeInclusive<u8>`, `Vec<X>` / `BTreeSet<X>` ...)
 fn sibling_key(text: &str) -> &str {
     match text.find('<') {
@@ -205,6 +233,18 @@ pub fn gen_history(es: &[Entry], by_shallow: &HashMap<&'static str, Vec<usize>>,
                 } else {
                     ws.insert(0, j);
                 }
+            }
+        }
+        // bring in a corpus neighbour (families are adjacent in the core corpus: the 8 BitVec kinds, the ranges, ...)
+        if rng.chance(1, 4) {
+            let j = (i + es.len() + rng.range(1, 3) - if rng.flip() { 0 } else { 4 }) % es.len();
+            ws.push(j);
+        }
+        // bring in a twin: a different Rust type whose definition is identical
+        if rng.chance(1, 3) {
+            if let Some(tw) = twins_of(i) {
+                let j = *rng.pick(tw);
+                ws.push(j);
             }
         }
         // bring in aliases of the same canonical identity
@@ -316,8 +356,10 @@ pub fn run(a: &Args) -> Report {
     for (i, e) in es.iter().enumerate() {
         by_shallow.entry(e.shallow).or_default().push(i);
     }
+    init_twins(&es);
     let mut total = Report::default();
     total.count("corpus_entries", es.len() as u64);
+    total.count("corpus_entries_with_twins", (0..es.len()).filter(|i| twins_of(*i).is_some()).count() as u64);
     total.count("corpus_alias_classes_with_2plus", by_shallow.values().filter(|v| v.len() > 1).count() as u64);
 
     let body = run_parallel(&cfg, |i, rep| {
@@ -366,6 +408,14 @@ pub fn run(a: &Args) -> Report {
                 return;
             }
         };
+        for (k, op) in ops.iter().enumerate() {
+            if let Op::Batch(v) = op {
+                if ex.returned[k].len() != v.len() {
+                    rep.violation(&format!("{}/register_types-length", prop), format!("register_types was given {} types and returned {} ids (op {})", v.len(), ex.returned[k].len(), k), case());
+                    return;
+                }
+            }
+        }
         let evals = hand::evals();
         let last = ex.snaps.last().cloned().unwrap_or_default();
         let reg = freeze(&last);
@@ -675,6 +725,7 @@ pub fn digest(a: &Args) -> Report {
     let seed = a.u("seed", 1);
     let cases = a.u("cases", 400);
     let es = crate::gen::entries();
+    init_twins(&es);
     let mut by_shallow: HashMap<&'static str, Vec<usize>> = HashMap::new();
     for (i, e) in es.iter().enumerate() {
         by_shallow.entry(e.shallow).or_default().push(i);
